@@ -318,6 +318,17 @@ fn render_faults() -> Vec<Fault> {
         f("mb-string-cmp", "{{ \"é\" < 1 }}", "\"é\" < 1", "render"),
         f("opt-chain", "{{ m?.q.x.y }}", "q", "render"),
         f("ws-control", "{{- nope -}}", "nope", "render"),
+        f("cr-in-tag", "{{ n\r*\rs }}", "s", "render"),
+        f("cr-before-token", "{{ 1 +\rnope }}", "nope", "render"),
+        f("crcrlf-in-tag", "{{ 1 +\r\r\n nope }}", "nope", "render"),
+        f("lfcr-in-tag", "{{ 1 +\n\r nope }}", "nope", "render"),
+        f("ff-in-tag", "{{ 1 +\x0c nope }}", "nope", "render"),
+        f("cr-string-operand", "{{ \"a\rb\" * 2 }}", "\"a\rb\"", "render"),
+        f("cr-string-before", "{{ \"a\rb\r\" ~ nope.x }}", "nope", "render"),
+        f("ls-string-before", "{{ \"a\u{2028}b\" ~ nope.x }}", "nope", "render"),
+        f("nel-string-operand", "{{ '\u{85}' * 2 }}", "'\u{85}'", "render"),
+        f("vt-ff-string-before", "{{ `\x0b\x0c` ~ nope.x }}", "nope", "render"),
+        f("cr-for", "{% for x\rin\rz %}a{% endfor %}", "z", "render"),
         f("tab-before", "\t{{\tnope\t}}", "nope", "render"),
     ]
 }
@@ -359,6 +370,14 @@ fn syntax_faults() -> Vec<Fault> {
         f("ml-string-then-bad", "{{ \"a\nb\" # }}", "#", "syntax"),
         f("ml-crlf-bad", "{% if t\r\n  ## %}", "#", "syntax"),
         f("comment-then-bad", "{# é\n日 #}{{ n ! }}", "!", "syntax"),
+        f("cr-comment-then-bad", "{# a\rb\r #}{{ n ! }}", "!", "syntax"),
+        f("cr-then-bad", "{{ 1 +\r # }}", "#", "syntax"),
+        f("cr-string-then-bad", "{{ \"a\rb\" # }}", "#", "syntax"),
+        f("vt-in-tag", "{{ 1 +\x0b 2 }}", "\x0b", "syntax"),
+        f("ls-in-tag", "{{ 1\u{2028}+ 2 }}", "\u{2028}", "syntax"),
+        f("nel-in-tag", "{% if t\u{85}%}a{% endif %}", "\u{85}", "syntax"),
+        f("cr-unterminated-string", "{{ 1 +\r\"abc }}", "\"", "syntax"),
+        f("cr-raw-then-bad", "{% raw %}\r{% endraw %}{{ , }}", ",", "syntax"),
         f("nested-brackets", "{{ a[[[[1]]]] }}", "[[[[", "syntax"),
     ]
 }
@@ -371,11 +390,28 @@ fn ref_faults() -> Vec<Fault> {
         f("unknown-fn", "{{ nofn() }}", "nofn", "ref"),
         f("unknown-component", "{{ <nocomp/> }}", "<nocomp/>", "ref"),
         f("unknown-include", "{% include \"missing\" %}", "\"missing\"", "ref"),
+        f("cr-unknown-filter", "{{ s\r| nofilter }}", "nofilter", "ref"),
+        f("cr-unknown-fn", "a\r{{ nofn() }}", "nofn", "ref"),
+        f("crcrlf-unknown-test", "{{ s\r\r\nis notest }}", "notest", "ref"),
         f("ml-unknown-filter", "{{ s ~ \"é\n日\"\n  | nofilter }}", "nofilter", "ref"),
     ]
 }
 
-const PREFIXES: [(&str, &str); 13] = [
+/// every line-ending flavour: only `\n` breaks a line for the lexer and for the report printer;
+/// `\r`, VT, FF, U+0085, U+2028 are ordinary characters (one column each)
+const EOLS: [(&str, &str); 9] = [
+    ("lf", "\n"),
+    ("crlf", "\r\n"),
+    ("cr", "\r"),
+    ("lfcr", "\n\r"),
+    ("crcrlf", "\r\r\n"),
+    ("ls-2028", "\u{2028}"),
+    ("nel-85", "\u{85}"),
+    ("vt", "\x0b"),
+    ("ff", "\x0c"),
+];
+
+const PREFIXES: [(&str, &str); 27] = [
     ("none", ""),
     ("ascii", "abc "),
     ("2byte", "é "),
@@ -389,14 +425,34 @@ const PREFIXES: [(&str, &str); 13] = [
     ("raw-nl", "{% raw %}{{ é\n{% endraw %}"),
     ("string-nl", "{{ \"é\n\" }}x "),
     ("combining", "e\u{301}\u{200d} "),
+    ("lone-cr", "l1\rl2 é "),
+    ("cr-first-byte", "\rx "),
+    ("lf-first-byte", "\nx "),
+    ("lfcr", "l1\n\rl2 "),
+    ("crcrlf", "l1\r\r\nl2 é "),
+    ("ls-2028", "l1\u{2028}l2 "),
+    ("nel-85", "l1\u{85}l2 "),
+    ("vt-ff", "l1\x0bl2\x0cl3 "),
+    ("cr-only-lines", "a\rb\rc\r"),
+    ("cr-in-comment", "{# a\rb\r\r\n #}"),
+    ("cr-in-raw", "{% raw %}a\r{{ b\n\r{% endraw %}"),
+    ("cr-in-string", "{{ \"a\rb\u{2028}c\" }} "),
+    ("cr-in-tag", "{{\rn\r}}\r"),
+    ("ff-in-tag", "{%\x0cset q = 1\x0c%}"),
 ];
 
-const SUFFIXES: [(&str, &str); 5] = [
+const SUFFIXES: [(&str, &str); 11] = [
     ("none", ""),
     ("tail", " tail"),
     ("next-line", "\nnext é"),
     ("crlf", "\r\n"),
     ("more-code", " {{ n }}"),
+    ("cr-last-byte", "\r"),
+    ("cr-then-text", "\rnext é"),
+    ("lfcr", "\n\r"),
+    ("ls-2028", "\u{2028}x"),
+    ("ff-last-byte", "\x0c"),
+    ("crcrlf", "\r\r\n"),
 ];
 
 const WRAPS: [(&str, &str, &str); 7] = [
@@ -1246,12 +1302,20 @@ impl<'a> Run<'a> {
 // ------------------------------------------------------------------ generated lexer sources
 
 fn lex_source(rng: &mut Rng) -> String {
-    const TEXT: [&str; 16] = ["abc", "é", "日本語", "😀", "\n", "\r\n", "a\nb", " ", "\t", "} ", "{ ", "% ", "ß", "e\u{301}", "\n\n", "x y"];
+    const TEXT: [&str; 26] = ["abc", "é", "日本語", "😀", "\n", "\r\n", "a\nb", " ", "\t", "} ", "{ ", "% ", "ß", "e\u{301}", "\n\n", "x y",
+        "\r", "a\rb", "\n\r", "\r\r\n", "\u{2028}", "\u{85}", "\x0b", "\x0c", "\r\r", "x\u{2028}\ry"];
     const IDENT: [&str; 8] = ["a", "b_c", "loop", "x1", "not", "in", "true", "_"];
     const OPS: [&str; 24] = ["+", "-", "*", "/", "//", "%", "**", "==", "!=", "<", "<=", ">", ">=", "~", "|", ".", "?.", "(", ")", "[", "]", ",", ":", "..."];
-    const STRS: [&str; 8] = ["\"s\"", "'é'", "\"日\n本\"", "`x\r\ny`", "\"a\\nb\"", "'😀'", "\"\"", "\"a\\\\\""];
-    const WS: [&str; 6] = [" ", "", "\n", "  ", "\r\n\t", " \n "];
+    const STRS: [&str; 14] = ["\"s\"", "'é'", "\"日\n本\"", "`x\r\ny`", "\"a\\nb\"", "'😀'", "\"\"", "\"a\\\\\"",
+        "\"a\rb\"", "'\r'", "`x\u{2028}y\u{85}`", "\"\x0b\x0c\"", "'\r\r\n'", "\"\n\r\""];
+    const WS: [&str; 12] = [" ", "", "\n", "  ", "\r\n\t", " \n ", "\r", " \r ", "\n\r", "\r\r\n", "\x0c", "\r\r"];
+    // not whitespace for the lexer: an "Unexpected character" error whose span is checked too
+    const BADWS: [&str; 3] = ["\x0b", "\u{2028}", "\u{85}"];
     let mut s = String::new();
+    // a line-ending flavour as the very first byte(s)
+    if rng.chance(1, 4) {
+        s.push_str(rng.pick(&EOLS[..]).1);
+    }
     let n = 1 + rng.below(8);
     for _ in 0..n {
         match rng.below(10) {
@@ -1268,6 +1332,9 @@ fn lex_source(rng: &mut Rng) -> String {
                 }
                 for _ in 0..rng.below(7) {
                     s.push_str(*rng.pick(&WS[..]));
+                    if rng.chance(1, 40) {
+                        s.push_str(*rng.pick(&BADWS[..]));
+                    }
                     match rng.below(5) {
                         0 => s.push_str(*rng.pick(&IDENT[..])),
                         1 => s.push_str(*rng.pick(&OPS[..])),
@@ -1316,25 +1383,34 @@ fn lex_source(rng: &mut Rng) -> String {
             }
         }
     }
+    // ... and as the very last byte(s) (otherwise the last line has no terminator)
+    if rng.chance(1, 4) {
+        s.push_str(rng.pick(&EOLS[..]).1);
+    }
     s
+}
+
+/// the same template with every `\n` replaced by another line-ending flavour
+fn with_eol(src: &str, eol: &str) -> String {
+    src.replace("\r\n", "\n").replace('\n', eol)
 }
 
 /// put non-ASCII text and line breaks into a template that parses: content gets a multi-byte
 /// prefix, every "{{ " / "{% " gets a line break after the delimiter
 fn decorate(rng: &mut Rng, src: &str) -> String {
-    const PRE: [&str; 5] = ["é\n", "日本 ", "😀\r\n", "\n\t", "ß "];
+    const PRE: [&str; 12] = ["é\n", "日本 ", "😀\r\n", "\n\t", "ß ", "\r", "x\ry ", "\u{2028}", "\x0c\x0b", "\n\r", "\r\r\n", "a\u{85}\r"];
     let mut out = String::new();
     out.push_str(*rng.pick(&PRE[..]));
     let mut rest = src;
     while let Some(p) = rest.find("{{ ").into_iter().chain(rest.find("{% ")).min() {
         out.push_str(&rest[..p + 2]);
-        out.push_str(*rng.pick(&["\n ", " ", "\r\n", "\n\n  "][..]));
+        out.push_str(*rng.pick(&["\n ", " ", "\r\n", "\n\n  ", "\r", "\r ", "\r\r\n", "\n\r", "\x0c"][..]));
         rest = &rest[p + 3..];
         if rng.chance(1, 3) {
             // and some text with a multi-byte character after the closing delimiter of this tag
             if let Some(q) = rest.find("}}").into_iter().chain(rest.find("%}")).min() {
                 out.push_str(&rest[..q + 2]);
-                out.push_str(*rng.pick(&["é", "日\n", "😀"][..]));
+                out.push_str(*rng.pick(&["é", "日\n", "😀", "\r", "x\r", "\u{2028}", "\u{85}\r\n", "\x0b"][..]));
                 rest = &rest[q + 2..];
             }
         }
@@ -1347,28 +1423,38 @@ fn decorate(rng: &mut Rng, src: &str) -> String {
 
 /// `{{ <a> OP <b> }}` where both operands are single instructions after fusion: the error span
 /// must be expand_span(combine_spans((i,i),(j,j))) over the real span table
-fn hull_cases(hull: &mut Sink, meta: &mut Meta, ctx: &Context) {
+fn hull_cases(hull: &mut Sink, meta: &mut Meta, ctx: &Context, thorough: bool) {
     let operands = ["s", "n", "arr", "m.a", "obj.f.g", "m.k", "\"é日\"", "3", "strs", "obj.f", "nope", "none"];
     let ops = ["<", ">=", "+", "*", "-", "/", "%", "**", "//", "<=", ">"];
-    let prefixes = ["", "é日 ", "l1\nl2 😀 ", "\r\n\t"];
+    let prefixes: Vec<&str> = if thorough { vec!["", "é日 ", "l1\nl2 😀 ", "\r\n\t", "a\rb ", "\r\r\n\u{2028}"] } else { vec!["", "l1\nl2 😀 ", "a\rb "] };
+    let brks: Vec<&str> = if thorough { vec![" ", "\n  ", "\r"] } else { vec![" ", "\r"] };
     for pre in prefixes {
         for a in operands {
             for b in operands {
                 for op in ops {
-                    for brk in [" ", "\n  "] {
+                    for brk in brks.iter().copied() {
                         let src = format!("{pre}{{{{ {a}{brk}{op} {b} }}}}");
                         let tera = Tera::default();
-                        let r = guarded(|| tera.render_str(&src, ctx, false));
-                        let Outcome::Err(c, _) = &r else { continue };
-                        if c != "render" {
-                            continue;
-                        }
-                        // need the span itself
-                        let e = match tera.render_str(&src, ctx, false) {
-                            Err(e) => e,
-                            Ok(_) => continue,
+                        // (tvh::guarded formats the error outside its catch_unwind: not used here)
+                        let r = std::panic::catch_unwind(std::panic::AssertUnwindSafe(|| tera.render_str(&src, ctx, false)));
+                        let e = match r {
+                            Err(_) => {
+                                meta.oracle_checks += 1;
+                                meta.oracle_fail("panic during render_str", None, json!({"source": src}));
+                                continue;
+                            }
+                            Ok(Ok(_)) => continue,
+                            Ok(Err(e)) => e,
                         };
                         let info = inspect(&e);
+                        if info.class != "render" {
+                            continue;
+                        }
+                        if let Err(m) = &info.display {
+                            meta.oracle_checks += 1;
+                            meta.oracle_fail(&format!("(e) Display panicked: {m}"), None,
+                                json!({"source": src, "message": info.message, "span": info.span.as_ref().map(json_span)}));
+                        }
                         let Some(sp) = info.span else { continue };
                         let Ok(ls) = chunk_listings("__tera_one_off", &src, Delimiters::default()) else { continue };
                         let Some(main) = ls.iter().find(|c| c.id == "main") else { continue };
@@ -1417,7 +1503,9 @@ fn hull_cases(hull: &mut Sink, meta: &mut Meta, ctx: &Context) {
 
 fn main() {
     let args = parse_args();
-    silence_panics();
+    if std::env::var("C12_SHOW_PANICS").is_err() {
+        silence_panics();
+    }
     let thorough = args.tier == "thorough";
     let mut rng = Rng::new(args.seed);
     let mut meta = Meta::default();
@@ -1491,10 +1579,23 @@ fn main() {
             run.run_plant(&p, fault, &ctx);
         }
     }
+    // A1b: every fault in a template whose line breaks are lone CRs / other flavours
+    for (k, fault) in all_faults.iter().enumerate() {
+        for (j, pl) in ["top", "include", "component"].iter().enumerate() {
+            if !thorough && j == 2 {
+                continue;
+            }
+            let pre = PREFIXES[13 + (k + j) % 14];
+            let suf = SUFFIXES[5 + (k + j) % 6];
+            let p = plant_b(fault, pl, pre, suf, WRAPS[0], PREFIXES[13 + (k + j + 5) % 14]);
+            run.run_plant(&p, fault, &ctx);
+        }
+    }
     // A2: every layout x wrap on a few faults and placements (to Coq)
-    let few = ["undef-var", "cmp-incomparable", "field-of-undefined", "unexpected-token", "non-ascii-in-tag", "unknown-filter", "filter-invalid-arg", "ml-undef"];
-    for fault in all_faults.iter().filter(|x| few.contains(&x.label)) {
-        for pl in ["top", "include", "component", "ancestor-block"] {
+    let few = ["undef-var", "cmp-incomparable", "field-of-undefined", "unexpected-token", "non-ascii-in-tag", "unknown-filter", "filter-invalid-arg", "ml-undef", "cr-before-token"];
+    let few_quick = ["undef-var", "cmp-incomparable", "unexpected-token", "unknown-filter", "cr-before-token"];
+    for fault in all_faults.iter().filter(|x| if thorough { few.contains(&x.label) } else { few_quick.contains(&x.label) }) {
+        for pl in if thorough { vec!["top", "include", "component", "ancestor-block"] } else { vec!["top", "include", "component"] } {
             for pre in PREFIXES {
                 for suf in if thorough { vec![SUFFIXES[0], SUFFIXES[3]] } else { vec![SUFFIXES[3]] } {
                     let p = plant_b(fault, pl, pre, suf, WRAPS[0], pre);
@@ -1535,9 +1636,11 @@ fn main() {
         "{% include \"x\" %}{% extends \"y\" %}",
         "{{ a is defined and not b or c in d }}\n{{ x ? . y ?[ 0 ] }}",
         "{%- filter upper -%}\n\té{{- 1.5 // 2 ** 3 -}}\n{%- endfilter -%}",
+        "a\r{{ 1 | upper }}\r{% if x\r%}\rb{% endif %}\r",
+        "\r\r\n{{ \"x\ry\" }}\u{2028}{# c\r #}\x0c{% raw %}\r{% endraw %}\n\r{{ a\x0c+\rb }}",
     ];
     for (i, s) in sweep.iter().enumerate() {
-        if !thorough && i >= 6 {
+        if !thorough && (6..10).contains(&i) {
             // the remaining sweeps: oracle only in the quick tier
             run.to_coq = false;
         }
@@ -1560,6 +1663,10 @@ fn main() {
             let d = decorate(&mut rng, src);
             run.push_source_spans(&format!("{label}+decorated"), &d);
         }
+        if src.contains('\n') && (thorough || i % (step * 2) == step) {
+            let (en, e) = EOLS[1 + (i / step) % (EOLS.len() - 1)];
+            run.push_source_spans(&format!("{label}+eol:{en}"), &with_eol(src, e));
+        }
     }
     let n_lex = if thorough { 8000 } else { 320 };
     for k in 0..n_lex {
@@ -1576,6 +1683,10 @@ fn main() {
     for (i, (label, src)) in corpus.iter().enumerate() {
         if src.len() <= 1500 && (thorough || i % 2 == 0) {
             run.corpus_set(label, &[("t.html".to_string(), src.clone())], &ctx);
+        }
+        if src.len() <= 1500 && src.contains('\n') && (thorough || i % 4 == 1) {
+            let (en, e) = EOLS[1 + i % (EOLS.len() - 1)];
+            run.corpus_set(&format!("{label}+eol:{en}"), &[("t.html".to_string(), with_eol(src, e))], &ctx);
         }
     }
     let n_tpl = if thorough { 3000 } else { 160 };
@@ -1598,7 +1709,7 @@ fn main() {
     drop(run);
 
     // ---- D. binary operators: expand_span / combine_spans against the real span table
-    hull_cases(&mut hull, &mut meta, &ctx);
+    hull_cases(&mut hull, &mut meta, &ctx, thorough);
 
     let oracle_only = meta.oracle_checks;
     meta.extra.insert("errors_by_stage_and_class".into(), json!(seen));
@@ -1608,6 +1719,7 @@ fn main() {
     meta.extra.insert("instruction_and_expression_spans_checked".into(), json!(n_other_spans));
     meta.extra.insert("fault_kinds".into(), json!({"render": rf.len(), "syntax": sf.len(), "reference": ff.len()}));
     meta.extra.insert("placements".into(), json!(PLACEMENTS));
+    meta.extra.insert("line_ending_flavours".into(), json!(EOLS.iter().map(|p| p.0).collect::<Vec<_>>()));
     meta.extra.insert("layouts".into(), json!({"prefixes": PREFIXES.iter().map(|p| p.0).collect::<Vec<_>>(),
         "suffixes": SUFFIXES.iter().map(|p| p.0).collect::<Vec<_>>(), "wraps": WRAPS.iter().map(|p| p.0).collect::<Vec<_>>()}));
     meta.families.push(tokens.finish());
